@@ -237,6 +237,10 @@ def apalache_bonus(c):
 
 def run(c):
     cov = c.cov
+    # TLC unpacks its standard modules into java.io.tmpdir (/tmp/tlc-*) and never removes them: keep that in the scratch dir
+    jtmp = os.path.join(c.scratch, "jtmp")
+    os.makedirs(jtmp, exist_ok=True)
+    os.environ["JAVA_TOOL_OPTIONS"] = (os.environ.get("JAVA_TOOL_OPTIONS", "") + " -Djava.io.tmpdir=" + jtmp).strip()
     # ------------------------------------------------------------------ 1. design level: TLC runs start now, in the background
     plan = c.pick(
         [("L2Lock_emit.cfg", 4, 900), ("L2Lock_mc_fine_quick.cfg", 4, 900)],
@@ -336,8 +340,6 @@ def _run(c, design, plan):
     if min(reach.values()) == 0:
         raise vlib.InfraError("a finding action of the model is unreachable: %s" % reach)
     cov["behaviours_emitted"] = len(progs)
-    if c.quick:   # quick tier executes every second behaviour (which half depends on the seed); thorough executes all
-        progs = [p for i, p in enumerate(progs) if i % 2 == c.seed % 2]
     cov["behaviours_executed"] = len(progs)
     cov["finding_steps_in_emitted_behaviours"] = reach
     tr, info = drive("replay", progs, "beh")
@@ -360,8 +362,8 @@ def _run(c, design, plan):
     cov.update(dict(
         evaluations=ntr, distinct_nontrivial=len(progs),
         rule="one case = one executed call sequence; distinct_nontrivial counts the executed TLC-emitted behaviours only: one "
-             "shortest call sequence per distinct state (modulo owner renaming) of the whole-call model (quick tier: every second "
-             "one), each executed on the real service and validated; evaluations adds the random, interleaved and concurrent traces",
+             "shortest call sequence per distinct state (modulo owner renaming) of the whole-call model, "
+             "each executed on the real service and validated; evaluations adds the random, interleaved and concurrent traces",
         traces_conforming_to_repaired_model=conforming,
     ))
     c.assumptions += ["harness/lib/resp stands in for Redis (virtual clock; SET NX PX, GET, GETEX, DEL semantics as documented)",
